@@ -32,7 +32,7 @@ fn run_line(prop: &str, args: &[&str]) -> String {
         "C15" => bcodec::run15(args),
         "C16" => bcodec::run16(args),
         "C13" => sess::run13(args),
-        "C14" if args[0] == "hand" => hand::run(args),
+        "C14" if args[0] == "hand" || args[0] == "stats" => hand::run(args),
         "C14" => sess::run14(args),
         _ => panic!("unknown property {}", prop),
     }
@@ -65,6 +65,10 @@ fn gen(prop: &str, rng: &mut Rng, n: usize) -> Vec<String> {
             // manager histories, then the connection task's side: own-state broadcasts on the wire (C14_trace)
             let mut v = sess::gen14(rng, n);
             v.extend(hand::gen(rng, (n / 5).max(14), "C14"));
+            // the measured rate itself: the task's statistics and its timer handler
+            for _ in 0..(n / 10).max(10) {
+                v.push(hand::gen_stats(rng));
+            }
             v
         }
         _ => panic!("unknown property {}", prop),
